@@ -49,6 +49,12 @@ func (c *Conversation) processAKE(msgType byte, msg []byte) (toSend []messageWit
 		// an unparsable DH-Commit must not touch the key exchange in progress
 		if err = (&dhCommit{}).deserialize(msg); err == nil {
 			c.ake.state, toSendSingle, err = c.ake.state.receiveDHCommitMessage(c, msg)
+			if c.ake.ourCommitPending {
+				// our D-H Commit won a collision and was sent again: the conversation goes on
+				// waiting for the D-H Key that answers it
+				c.ake.state = authStateAwaitingDHKey{}
+				c.ake.ourCommitPending = false
+			}
 		}
 	case msgTypeDHKey:
 		c.ake.state, toSendSingle, err = c.ake.state.receiveDHKeyMessage(c, msg)
@@ -123,11 +129,6 @@ func (s authStateNone) receiveDHCommitMessage(c *Conversation, msg []byte) (auth
 }
 
 func (s authStateAwaitingRevealSig) receiveDHCommitMessage(c *Conversation, msg []byte) (authState, messageWithHeader, error) {
-	if c.ake.ourCommitPending {
-		// our own D-H Commit is still unanswered: we are in fact awaiting a D-H Key
-		return authStateAwaitingDHKey{}.receiveDHCommitMessage(c, msg)
-	}
-
 	//As per spec, we forget the old DH-commit (received before we sent the DH-Key)
 	//and use this one, so we forget all the keys
 	c.ake.keys = c.ake.keys.wipeAndKeepRevealKeys()
@@ -177,11 +178,6 @@ func (s authStateNone) receiveDHKeyMessage(c *Conversation, msg []byte) (authSta
 }
 
 func (s authStateAwaitingRevealSig) receiveDHKeyMessage(c *Conversation, msg []byte) (authState, messageWithHeader, error) {
-	if c.ake.ourCommitPending {
-		// the answer to the D-H Commit we sent again after winning a collision
-		return authStateAwaitingDHKey{}.receiveDHKeyMessage(c, msg)
-	}
-
 	return s, nil, nil
 }
 
@@ -227,10 +223,6 @@ func (s authStateNone) receiveRevealSigMessage(c *Conversation, msg []byte) (aut
 }
 
 func (s authStateAwaitingRevealSig) receiveRevealSigMessage(c *Conversation, msg []byte) (authState, messageWithHeader, error) {
-	if c.ake.ourCommitPending {
-		return authStateAwaitingDHKey{}.receiveRevealSigMessage(c, msg)
-	}
-
 	err := c.processRevealSig(msg)
 
 	if err != nil {
